@@ -176,16 +176,31 @@ def hash_str(s):
 
 
 def load_known(pid):
+    """known_findings.txt, one finding per line (committed, never written at run time):
+         known: property=<id> key=<violation key, may end in *> :: <what fails>
+         fixed: property=<id> <commit> <what failed>          (suppresses nothing)
+    """
     out = []
-    p = os.path.join(VERIF, "known_findings.jsonl")
+    p = os.path.join(VERIF, "known_findings.txt")
     if os.path.exists(p):
         for line in open(p):
             line = line.strip()
             if not line or line.startswith("#"):
                 continue
-            k = json.loads(line)
-            if k.get("property") == pid:
-                out.append(k)
+            status, _, rest = line.partition(":")
+            status = status.strip()
+            rest = rest.strip()
+            if not rest.startswith("property=" + pid + " "):
+                continue
+            rest = rest[len("property=" + pid + " "):]
+            if status == "known":
+                keypart, _, what = rest.partition("::")
+                key = keypart.strip()
+                if key.startswith("key="):
+                    key = key[4:]
+                out.append({"property": pid, "status": "known", "key": key, "what": what.strip()})
+            elif status == "fixed":
+                out.append({"property": pid, "status": "fixed", "key": "", "what": rest})
     return out
 
 
